@@ -34,6 +34,13 @@ Definition off_allowed (e : effect) : bool :=
   | _ => false
   end.
 
+Lemma off_allowed_are_reads e : off_allowed e = true ->
+  e = EReadDirLocal \/ e = EReadMode \/ (exists n, e = EReadCount n) \/ e = EReadDirUpload \/ e = EMkdirUpload.
+Proof.
+  destruct e; intros H; try discriminate H; auto.
+  right; right; left. eexists. reflexivity.
+Qed.
+
 Lemma forallb_map_const {A} (f : A -> effect) (p : effect -> bool) l :
   (forall x, p (f x) = true) -> forallb p (map f l) = true.
 Proof. intros H. induction l as [|x l IH]; [reflexivity|]. cbn. rewrite H, IH. reflexivity. Qed.
